@@ -132,7 +132,8 @@ def MemW.step (w : MemW) : Op → MemW × Obs
   | .get b e => let r := w.st.iterate b e 0; (w, ⟨r.2, w.st.nextS, w.st.nextT, false, r.1⟩)
   | .iter b e k => let r := w.st.iterate b e k; (w, ⟨r.2, w.st.nextS, w.st.nextT, false, r.1⟩)
   | .refresh => (w, ⟨true, w.st.nextS, w.st.nextT, false, []⟩)
-  | .reopen => (w, ⟨true, w.st.nextS, w.st.nextT, false, []⟩)   -- not a persistent store: the harness never closes it
+  | .reopen => let m := MemW.create w.clock   -- not persistent: a new store from the factory is a fresh store
+               (m, ⟨true, m.st.nextS, m.st.nextT, decide (m.st.ctime ≠ w.st.ctime), []⟩)
   | .reset => let s := w.st.reset w.clock
               ({ st := s, clock := w.clock + 1 }, ⟨true, s.nextS, s.nextT, decide (s.ctime ≠ w.st.ctime), []⟩)
 
